@@ -431,6 +431,125 @@ def _same_vars(a, b):
     return n1 == n2
 
 
+# ------------------------------------------------------------------ GCTM: the wrapper around scipy.optimize.minimize
+class _MinimizeStub:
+    """scipy.optimize.minimize by contract for the WRAPPER: it is handed an objective, a start vector and bounds and
+    returns SOME vector within the bounds (fresh symbols >= 0).  Nothing is assumed about optimality."""
+
+    def __init__(self, answer):
+        self.answer = answer
+        self.calls = []
+
+    def __call__(self, fun, x0, args=(), bounds=None, **kw):
+        self.calls.append(dict(fun=fun, x0=x0, args=args, bounds=bounds, kw=kw))
+        return {"x": self.answer, "success": True}
+
+
+def _scaled_moments(hh, cc, L, hs, cs):
+    out = []
+    for i in range(2 * L - 1):
+        acc = Sym(0)
+        for a, b in zip(hh, cc):
+            acc = acc + (Sym.lift(b) / cs) * ((Sym.lift(a) / hs) ** i)
+        out.append(acc)
+    return out
+
+
+def replay_gctm(hv, pv, L, hs, cs, xv):
+    """the real GCTM with a controlled optimiser that records its arguments and answers xv: is the objective it was
+    given, at xv, the moment residual (scaled units) of the layers GCTM then returns?  Then the real optimiser."""
+    pc = _pc()
+    hv, pv, xv = numpy.asarray(hv, dtype=float), numpy.asarray(pv, dtype=float), numpy.abs(numpy.asarray(xv, dtype=float))
+    rec = {}
+
+    def fake(fun, x0, args=(), bounds=None, **kw):
+        rec.update(fun=fun, x0=numpy.array(x0, dtype=float), args=args, bounds=bounds)
+        return {"x": xv.copy()}
+    old = pc.minimize
+    pc.minimize = fake
+    try:
+        h_L, c_L = pc.GCTM(hv.copy(), pv.copy(), L, h_scaling=hs, cn2_scaling=cs)
+    except Exception as e:
+        return True, dict(what="GCTM raises %s: %s" % (type(e).__name__, e))
+    finally:
+        pc.minimize = old
+    h_L, c_L = numpy.asarray(h_L, dtype=float), numpy.asarray(c_L, dtype=float)
+    notes = []
+    if len(h_L) != L or len(c_L) != L:
+        notes.append("returns %d / %d values instead of L = %d layers" % (len(h_L), len(c_L), L))
+    else:
+        obj = float(rec["fun"](xv.copy(), *rec["args"]))
+        res = 0.0
+        for i in range(2 * L - 1):
+            res += (float(numpy.sum(c_L / cs * (h_L / hs) ** i)) - float(numpy.sum(pv / cs * (hv / hs) ** i))) ** 2
+        if abs(obj - res) > 1e-9 * max(1.0, abs(obj), abs(res)):
+            notes.append("objective at the optimiser's answer %.9g != moment residual of the returned layers %.9g" % (obj, res))
+        if len(rec["x0"]) != 2 * L or rec["bounds"] is None or len(rec["bounds"]) != 2 * L or any(b[0] != 0 for b in rec["bounds"]):
+            notes.append("start vector / non-negativity bounds do not cover 2L variables")
+        if numpy.any(c_L < 0):
+            notes.append("negative strengths")
+    return bool(notes), dict(what="; ".join(notes) or "ok", heights=hv, cn2=pv, L=L, h_scaling=hs, cn2_scaling=cs, optimiser_answer=xv)
+
+
+def case_gctm(ctx, N, L):
+    pc = _pc()
+    h, p, w, pre = profile(N, False)
+    hs, cs = var("hs"), var("cs")
+    X = core.obj(numpy.array([var("x%d" % i) for i in range(2 * L)], dtype=object))
+    pre = pre + [z(hs.re) > 0, z(cs.re) > 0] + [z(e.re) >= 0 for e in X.flat]
+    ctx.encoded(pc.GCTM, pc._moments, pc._moments_minfunc, pc.equivalent_layers)
+    ctx.bounds.update(N=N, L=L, scalings="h_scaling, cn2_scaling symbolic > 0", optimiser="scipy.optimize.minimize replaced by: returns ANY vector within the bounds")
+    ctx.assume("scipy.optimize.minimize returns a vector within the bounds it is given; its accuracy (how small the residual gets) is outside")
+    stub = _MinimizeStub(X)
+
+    def go():
+        del stub.calls[:]
+        with npx.symbolic(pc, extra={pc.__name__: {"minimize": stub}}):
+            out = pc.GCTM(h, p, L, h_scaling=hs, cn2_scaling=cs)
+            call = dict(stub.calls[0]) if stub.calls else None
+            obj = call["fun"](X, *call["args"]) if call else None
+        return out, call, obj
+    paths, ex = core.run_paths(go, pre, max_paths=400)
+    ctx.explored(ex, len(paths))
+    rp = lambda m: replay_gctm(*conc_profile(m, h, p, None)[:2], L, abs(float(m(hs))) or 1.0, abs(float(m(cs))) or 1.0, [abs(float(m(e))) for e in X.flat])
+    done = 0
+    for pi, pth in enumerate(paths):
+        hyp = pre + pth.pc
+        if pth.exc is not None:
+            if isinstance(pth.exc, ZeroDivisionError):
+                ctx.assume("paths with an empty slab in the starting guess (0/0) are not examined")
+                continue
+            ctx.prove("path%d raises %s" % (pi, type(pth.exc).__name__), hyp, z3.BoolVal(False), replay=rp, axioms=False)
+            continue
+        (h_L, c_L), call, obj = pth.out
+        h_L, c_L = numpy.asarray(h_L, dtype=object), numpy.asarray(c_L, dtype=object)
+        if call is None or h_L.shape != (L,) or c_L.shape != (L,):
+            ctx.prove("path%d: the optimiser is called once and exactly L layers are returned" % pi, hyp, z3.BoolVal(False), replay=rp, axioms=False)
+            continue
+        done += 1
+        m_out = _scaled_moments(h_L, c_L, L, hs, cs)
+        m_in = _scaled_moments(h, p, L, hs, cs)
+        res = Sym(0)
+        for a, b in zip(m_out, m_in):
+            res = res + (a - b) * (a - b)
+        ctx.prove("path%d: the objective the optimiser minimised, at its answer, is the residual of the first 2L-1 (scaled) moments of the RETURNED layers" % pi,
+                  hyp, conj(eqs(Sym.lift(obj), res)), replay=rp, timeout_ms=60000)
+        x0 = numpy.asarray(call["x0"], dtype=object)
+        g = [z3.BoolVal(x0.shape == (2 * L,)), z3.BoolVal(call["bounds"] is not None and len(call["bounds"]) == 2 * L and all(tuple(b) == (0, None) for b in call["bounds"]))]
+        ctx.prove("path%d: 2L optimisation variables, each bounded below by 0" % pi, hyp, conj(g), replay=rp, axioms=False)
+        ctx.prove("path%d: returned strengths are non-negative" % pi, hyp, conj([z(Sym.lift(e).re) >= 0 for e in c_L]), replay=rp, timeout_ms=30000)
+        if x0.shape == (2 * L,):
+            # the start is a feasible point whose total strength is the input's (the equivalent-layers compression, scaled)
+            tot = Sym(0)
+            for e in x0[L:]:
+                tot = tot + Sym.lift(e)
+            tin = Sym(0)
+            for e in p:
+                tin = tin + e
+            ctx.prove("path%d: the starting guess carries the input's total Cn2 (scaled)" % pi, hyp, conj(eqs(tot * cs, tin)), replay=rp, timeout_ms=30000)
+    ctx.prove("guard: preconditions satisfiable", pre, z3.BoolVal(False), expect="sat", kind="vacuity", axioms=False)
+
+
 def build_cases(tier):
     cases = []
     E = [(3, 1, True), (3, 2, True), (4, 2, True), (4, 3, False), (5, 2, False)]
@@ -446,6 +565,8 @@ def build_cases(tier):
         O += [(5, 2, 1, (0, 2, 3, 7, 12)), (4, 3, 1, (0, 1, 3, 7)), (5, 3, 1, (0, 2, 3, 7, 12)), (4, 2, 2, (0, 1, 3, 7)), (5, 4, 1, (0, 2, 3, 7, 12))]
     for N, L, R, hs in O:
         cases.append(("optimal_grouping/N=%d/L=%d/R=%d/%s" % (N, L, R, "symbolic-heights" if hs is None else "concrete-heights"), case_og, dict(N=N, L=L, R=R, heights=hs)))
+    for N, L in ([(3, 2)] if tier == "quick" else [(3, 2), (4, 2), (4, 3)]):
+        cases.append(("GCTM-wrapper/N=%d/L=%d" % (N, L), case_gctm, dict(N=N, L=L)))
     H = [(3, 2, 0, (0, 1, 2))] if tier == "quick" else [(3, 2, 0, (0, 1, 2)), (3, 2, 1, (0, 1, 2)), (4, 2, 0, (0, 1, 3, 7)), (4, 3, 0, (0, 1, 3, 7))]
     for N, L, R, hs in H:
         cases.append(("optimal_grouping/N=%d/L=%d/R=%d/after-another-profile" % (N, L, R), case_og, dict(N=N, L=L, R=R, heights=hs, earlier=True)))
